@@ -34,6 +34,10 @@ pub struct RelayMap {
 
 impl PartialEq for RelayMap {
     fn eq(&self, other: &Self) -> bool {
+        // Clones share the same lock: never take it twice.
+        if Arc::ptr_eq(&self.relays, &other.relays) {
+            return true;
+        }
         let this = self.relays.read().expect("poisoned");
         let that = other.relays.read().expect("poisoned");
         this.eq(&*that)
@@ -140,6 +144,11 @@ impl RelayMap {
 
     /// Extends this `RelayMap` with another one.
     pub fn extend(&self, other: &RelayMap) {
+        // Extending a map with itself (or a clone, which shares the same lock) is a
+        // no-op; taking the read lock while holding the write lock would deadlock.
+        if Arc::ptr_eq(&self.relays, &other.relays) {
+            return;
+        }
         let mut a = self.relays.write().expect("poisoned");
         let b = other.relays.read().expect("poisoned");
         a.extend(b.iter().map(|(a, b)| (a.clone(), b.clone())));
